@@ -90,6 +90,8 @@ def cmd_run(names, checks, tier):
     results = {}
     for name in names:
         d = os.path.join(HERE, 'seeded', name)
+        if not os.path.isdir(d):
+            d = os.path.join(HERE, 'mutants', name)
         meta = json.load(open(os.path.join(d, 'meta.json')))
         ids = checks or [meta['property']]
         wt = worktree()
